@@ -220,6 +220,15 @@ func (r *rewriter) stmt(s ast.Stmt) []ast.Stmt {
 				case (se.Sel.Name == "Unlock" || se.Sel.Name == "RUnlock") && len(c.Args) == 0:
 					r.counts["unlock"]++
 					return append(pre, callStmt("Unlock", addr), x)
+				case r.looksLikeWG(se.X) && se.Sel.Name == "Add" && len(c.Args) == 1:
+					r.counts["wg"]++
+					return append(pre, callStmt("WgAdd", addr, c.Args[0]), x)
+				case r.looksLikeWG(se.X) && se.Sel.Name == "Done" && len(c.Args) == 0:
+					r.counts["wg"]++
+					return append(pre, callStmt("WgDone", addr), x)
+				case r.looksLikeWG(se.X) && se.Sel.Name == "Wait" && len(c.Args) == 0:
+					r.counts["wg"]++
+					return append(pre, callStmt("WgWait", addr), x)
 				case se.Sel.Name == "Do" && len(c.Args) == 1 && r.looksLikeOnce(se.X):
 					r.counts["once"]++
 					r.funcLits(c)
@@ -325,6 +334,12 @@ func (r *rewriter) stmt(s ast.Stmt) []ast.Stmt {
 		x.Stmt = inner[len(inner)-1]
 		return append(append(pre, inner[:len(inner)-1]...), x)
 	case *ast.DeferStmt:
+		if se, ok := x.Call.Fun.(*ast.SelectorExpr); ok && se.Sel.Name == "Done" && len(x.Call.Args) == 0 && r.looksLikeWG(se.X) {
+			r.counts["wg"]++
+			addr := &ast.UnaryExpr{Op: token.AND, X: se.X}
+			x.Call = &ast.CallExpr{Fun: &ast.FuncLit{Type: &ast.FuncType{Params: &ast.FieldList{}}, Body: &ast.BlockStmt{List: []ast.Stmt{callStmt("WgDone", addr), &ast.ExprStmt{X: x.Call}}}}}
+			return append(pre, x)
+		}
 		if se, ok := x.Call.Fun.(*ast.SelectorExpr); ok && (se.Sel.Name == "Unlock" || se.Sel.Name == "RUnlock") && len(x.Call.Args) == 0 {
 			r.counts["unlock"]++
 			addr := &ast.UnaryExpr{Op: token.AND, X: se.X}
@@ -344,6 +359,19 @@ func (r *rewriter) stmt(s ast.Stmt) []ast.Stmt {
 	default:
 		return append(pre, s)
 	}
+}
+
+// looksLikeWG: syntactic guess that the receiver is a sync.WaitGroup (name is or contains "wg" / "waitgroup").
+func (r *rewriter) looksLikeWG(e ast.Expr) bool {
+	var name string
+	switch v := e.(type) {
+	case *ast.Ident:
+		name = v.Name
+	case *ast.SelectorExpr:
+		name = v.Sel.Name
+	}
+	n := strings.ToLower(name)
+	return n == "wg" || strings.Contains(n, "waitgroup") || strings.HasSuffix(n, "wg")
 }
 
 // looksLikeOnce: syntactic guess that the receiver of .Do(f) is a sync.Once (name contains "once").
